@@ -2408,6 +2408,8 @@ impl Sup {
             "threads": self.ths.len(),
             "switches": self.switches,
             "usteps": self.usteps,
+            "sim_elapsed_ns": self.sim_ns.saturating_sub(1_000_000_000_000),
+            "clock_owned": self.vdso_off,
             "max_ready": self.max_ready,
             "peak_fds": self.peak_fds,
             "peak_sb_fds": self.peak_sb_fds,
